@@ -5,6 +5,8 @@ NOTES = ("Machine-checked proof in Coq 8.16 over executable Gallina models of th
          "(translator -> coq/gen). Oracles (math/big, encoding/*, x/net/html, node, strace) only search for failing inputs. "
          "fix: commits and open findings are listed in known_findings.json.")
 ENGINES = [
+    {"name": "DataUri", "path": "coq/theories/DataUri", "serves_properties": ["C18", "C11"],
+     "kind_free_text": "Gallina models of minify.DataURI's re-encoding half, base64/percent encoders, minify.Mediatype (F1) + RFC decoders as spec; harness/cmd/dataurichk"},
     {"name": "Dispatch", "path": "coq/theories/Dispatch", "serves_properties": ["C15"],
      "kind_free_text": "Gallina model of the registry (Add*/Match/MinifyMimetype) and of parse.Mediatype; harness/cmd/dispatchcheck"},
     {"name": "Json", "path": "coq/theories/Json", "serves_properties": ["C07", "C09", "C10"],
@@ -13,6 +15,17 @@ ENGINES = [
      "kind_free_text": "F2 Gallina model of minify.Number/Decimal (precision 0) + lexeme grammar and value spec; extracted to OCaml; harness/cmd/numcheck"},
 ]
 CHECKS = {
+    "C18": {
+        "engine": "DataUri", "design_ref": "DESIGN.md section 4 / C18",
+        "technique": "Coq proof (round trips for all byte strings, result shape) on extracted models + correspondence after the real parse.DataURI",
+        "text": ("Theorems (Props/C18.v), for every payload over all 256 byte values: percent-encoding and base64 as emitted decode back to exactly the "
+                 "encoded bytes (RFC 3986/4648 decoders as spec); the helper's result is the original (only if shorter than both encodings) or "
+                 "data:<stripped type>[;base64],<payload> in the shorter encoding; the lengths compared are the real lengths; 'never longer' is refuted "
+                 "(K50). Tie: extracted models vs minify.DataURI (fed by the real parse.DataURI and stub sub-minifiers), base64.StdEncoding, the real "
+                 "encoding table for all 256 bytes, and minify.Mediatype (F1 transliteration). Oracle: independent RFC 2397 reader."),
+        "note": ("Trusted: Coq kernel, extraction, driver, DataUriSpec.v decoders as the meaning of 'decodes to', harness. The decoding half lives in the "
+                 "parse dependency and is run, not modelled (known findings K40, K49 are there)."),
+    },
     "C15": {
         "engine": "Dispatch", "design_ref": "DESIGN.md section 4 / C15",
         "technique": "Coq refinement proof over all registration histories + correspondence on generated histories",
